@@ -197,6 +197,25 @@ def oracle_c17(spec, root, b, names, hist=None):
                           % (n, get_path(seen, d), ".".join(d), get_path(exp, d)), [n]))
         elif hist is not None:
             hist["body_config_checked"] += 1
+    # ---- the same when another task (from any other namespace path) ran first in the same session:
+    #      the settings a task receives are those of ITS path, not left-overs of the previous task
+    acc = [n for n in sorted(accepted) if base.impl_lookup(root, n)[1] is not None and want.get(base.impl_lookup(root, n)[1]._vid) is not None]
+    pairs = [(m, n) for m in acc for n in acc if m != n][:8] + [(m, n) for m in reversed(acc) for n in acc if m != n][:8]
+    for m, n in pairs:
+        tm, tn = base.impl_lookup(root, m)[1], base.impl_lookup(root, n)[1]
+        if tm._vid == tn._vid:
+            continue
+        out, err, log, exc = base.quiet_run(root, [m, n])
+        if len(log) != 2 or log[0][0] != tm._vid or log[1][0] != tn._vid:
+            continue
+        seen = log[1][1]
+        exp = {k: v for k, v in want[tn._vid].items() if k in base.WATCH_KEYS}
+        d = diff_path(seen, exp)
+        if d is not None:
+            fails.append(("body-sees-other-settings", "invoked as %r right after %r the task body sees %r at %s, expected %r"
+                          % (n, m, get_path(seen, d), ".".join(d), get_path(exp, d)), [m, n]))
+        elif hist is not None:
+            hist["body_config_checked_after_other_task"] += 1
     return fails
 
 
